@@ -186,6 +186,30 @@ MultiplyFails(pre, post, args) ==
   \cup (IF RestOK(pre, post, args) THEN {} ELSE {"C15.rest"})
 
 -----------------------------------------------------------------------------
+(* placeholders *)
+(* gfapy keeps a VIRTUAL line for something that is mentioned but not defined: a link that a
+   GFA1 path needs between two consecutive segments, a segment named by a link or a path
+   (documentation, "References": "virtual lines"; written with co:Z:GFAPY_virtual_line).  A
+   virtual link is not a link of the graph: pre and post above hold the REAL lines only, so a
+   copy that turns a placeholder of the original into a real link is an invented link
+   (NothingInvented).  About the placeholders themselves (vpre, vpost: the virtual lines before
+   and after) the statement only yields:
+     * "the rest of the graph is untouched": the placeholders that mention neither the segment
+       nor a copy are the same;
+     * "no link is invented": a placeholder edge on one of the k segments is the copy of a
+       placeholder edge of the original (whether the copies receive such placeholders at all,
+       and which of them survive a distribution, is left open).                               *)
+PlaceholderRestOK(pre, post, vpre, vpost, args) ==
+  RestOf(vpre, {args.seg}) = RestOf(vpost, Group(pre, post, args.seg))
+PlaceholderEdgesOK(pre, post, vpre, vpost, args) ==
+  LET s == args.seg
+      N == Group(pre, post, s) IN
+  \A j \in EdgeIdxOf(vpost, N) : \E i \in EdgeIdxOf(vpre, {s}) : CopyOf(vpost[j], vpre[i], N, s)
+PlaceholderFails(pre, post, vpre, vpost, args) ==
+  (IF PlaceholderRestOK(pre, post, vpre, vpost, args) THEN {} ELSE {"C15.rest"})
+  \cup (IF PlaceholderEdgesOK(pre, post, vpre, vpost, args) THEN {} ELSE {"C15.edges"})
+
+-----------------------------------------------------------------------------
 (* factors below 2 *)
 \* factor 0 removes the segment (with the lines that depend on it)
 RemovedOK(pre, post, args) ==
